@@ -26,7 +26,9 @@ CONSTANTS Conns,        \* connection names
           MaxChanges,   \* budget of host changes
           MaxConc,      \* maxPushConcurrency (32 in the code)
           Kinds,        \* kinds of change: subset of {"fresh", "revert"}
-          FailLate      \* may pushes fail after the last change? (FALSE for liveness)
+          FailLate,     \* may pushes fail after the last change? (FALSE for liveness)
+          Off           \* environment actions switched off in this instance (subset of
+                        \* {"idresp", "svcclose", "connclose", "identno", "openfail", "writefail"})
 
 VARIABLES hc,     \* host content, as a version id: 0 initially, a "fresh" change makes content nobody has seen
                   \* (which of protocols / addresses / signed record differs is the harness's choice), a
@@ -199,10 +201,14 @@ SvcClose ==
 
 Env == \/ \E k \in Kinds : Change(k)
        \/ Update
-       \/ \E c \in Conns : \/ \E ok \in BOOLEAN : Open(c, ok) \/ Write(c, ok)
-                           \/ Connected(c) \/ ConnClose(c) \/ Disconnected(c) \/ IdResp(c)
-                           \/ \E sup \in BOOLEAN : Identified(c, sup)
-       \/ SvcClose
+       \/ \E c \in Conns : \/ Open(c, TRUE) \/ Write(c, TRUE)
+                           \/ (("openfail" \notin Off \/ cs[c] # "up" \/ ps[c] = "no") /\ Open(c, FALSE))
+                           \/ (("writefail" \notin Off \/ cs[c] # "up") /\ Write(c, FALSE))
+                           \/ Connected(c) \/ Disconnected(c)
+                           \/ ("connclose" \notin Off /\ ConnClose(c))
+                           \/ ("idresp" \notin Off /\ IdResp(c))
+                           \/ Identified(c, TRUE) \/ ("identno" \notin Off /\ Identified(c, FALSE))
+       \/ ("svcclose" \notin Off /\ SvcClose)
 \* steps of the code that nothing the environment controls separates from their predecessor
 Internal == RStart \/ REnd \/ \E c \in Conns : Pick(c) \/ Rec(c)
 Next == Env \/ Internal
